@@ -268,13 +268,23 @@ SubmitTieBreak ==
                 /\ fin' = f2 /\ temp' = temp /\ evlog' = evlog \o ne
                 /\ script' = Append(script, [Step(c, TRUE, chain', vstack', f2, temp, evlog', ne) EXCEPT !.op = "tiebreak"])
 
+\* an INVALID competitor that satisfies the tie-break conditions, in the middle of a behaviour: the node removes the tip,
+\* rejects the competitor and puts the tip back; nothing changes, nothing is published, and whatever is applied later is
+\* published as usual (the events of the attempt are held back and dropped, not the later ones)
+NBadTie == Cardinality({i \in 1..Len(script) : script[i].op = "tiebreak" /\ script[i].mut # "none"})
+SubmitBadTieBreak ==
+  /\ Len(script) < MaxSteps /\ NBadTie < 1 /\ ~DeepRevert
+  /\ UNCHANGED <<chain, vstack, fin, temp, evlog, recvKnown>>
+  /\ \E c \in TieProbes :
+       script' = Append(script, [Step(c, FALSE, chain, vstack, fin, temp, evlog, <<>>) EXCEPT !.op = "tiebreak"])
+
 Restart ==
   /\ Len(script) < MaxSteps /\ Len(script) > 0 /\ NRestart < 1 /\ (DeepRevert => fin > 0)
   /\ script' = Append(script, [op |-> "restart", obs |-> Obs(chain, vstack, fin, temp, evlog)])
   /\ recvKnown' = FALSE
   /\ UNCHANGED <<chain, vstack, fin, temp, evlog>>
 
-Next == SubmitValid \/ SubmitTieBreak \/ DeleteTip \/ DeleteDown \/ Restart
+Next == SubmitValid \/ SubmitTieBreak \/ SubmitBadTieBreak \/ DeleteTip \/ DeleteDown \/ Restart
 Spec == Init /\ [][Next]_vars
 
 (* ------------------------------- properties ------------------------------ *)
